@@ -14,12 +14,25 @@ def universe():
     return _universe
 
 
-def ptid(s):
+def ptid(s, names=None):
     s = s.strip().strip('"')
-    m = re.fullmatch(r"(\*?)(?:[\w./-]+\.)?T(\d+)", s)
+    m = re.fullmatch(r"(\*?)(?:[\w./-]+\.)?(\w+)", s)
     if not m:
         raise ValueError("cannot parse type %r" % s)
-    return 2 * int(m.group(2)) + (1 if m.group(1) else 0)
+    n = m.group(2)
+    if names and n in names:
+        k = names[n]
+    else:
+        mm = re.fullmatch(r"T(\d+)", n)
+        if not mm:
+            raise ValueError("cannot parse type %r" % s)
+        k = int(mm.group(1))
+    return 2 * k + (1 if m.group(1) else 0)
+
+
+def ptid_for(r):
+    rev = {v: k for k, v in r.tnames.items()}
+    return lambda s: ptid(s, rev)
 
 
 def strip_msg(m):
@@ -97,7 +110,7 @@ def r_set_pkg(s, r):
         td = r.types[k]
         fields = ['mkSF %s 0 %s' % (coq_str("ID"), coq_str('wire:"-"'))] + \
                  ["mkSF %s %d %s" % (coq_str(f["name"]), f["t"], coq_str(f["tag"])) for f in td["fields"]]
-        sps.append("mkSProv %d 1 %s %d %d %s %s" % (p["id"], coq_str("T%d" % k), 2 * k, 2 * k + 1, coq_list(fields),
+        sps.append("mkSProv %d 1 %s %d %d %s %s" % (p["id"], coq_str(r.tn(k)), 2 * k, 2 * k + 1, coq_list(fields),
                                                    coq_list([coq_str(l) for l in p.get("_lits", [])])))
     vals = coq_list(["mkVal %d %d %s" % (v["id"], v["out"], coq_bool(v.get("ok", True))) for v in s["values"]])
     flds = coq_list(["mkField %d %d %d %s %s" % (f["id"], f.get("pkg", 1), f["parent"], coq_str(f["name"]), synth.r_nats(f["outs"])) for f in s["fields"]])
@@ -111,18 +124,19 @@ def case_term(i, p, r, o):
     types = []
     for k in sorted(r.types):
         td = r.types[k]
-        types.append((2 * k, ("named", 1, "T%d" % k, "ZNil" if td["kind"] == "iface" else "ZComposite")))
+        types.append((2 * k, ("named", 1, r.tn(k), "ZNil" if td["kind"] == "iface" else "ZComposite")))
         types.append((2 * k + 1, ("ptr", 2 * k)))
     scope = ["Inject", "Run"] + ["P%d" % pr["id"] for pr in r.provs.values() if pr["pkg"] == 0 and not pr["struct"]] + \
-            ["S%d" % s["id"] for s in r.sets.values() if s["pkg"] == 0 and s["id"] != 0] + universe()
+            ["S%d" % s["id"] for s in r.sets.values() if s["pkg"] == 0 and s["id"] != 0] + \
+            [d[2:] if d.startswith("f:") else d for d in r.app_decls] + universe()
     env = "(mkEnv %s %s %s)" % (
         coq_list(["(%s, %s)" % (coq_str(r.apppath), coq_str("app")), "(%s, %s)" % (coq_str(r.libpath), coq_str(r.libname))]),
         coq_list(["(%d, %s)" % (t, r_tydesc(d)) for t, d in types]),
         coq_list([coq_str(x) for x in scope]))
-    order = sorted([t for t, _ in types], key=lambda t: ("*" if t % 2 else "") + r.libpath + ".T%d" % (t // 2))
+    order = sorted([t for t, _ in types], key=lambda t: ("*" if t % 2 else "") + r.libpath + "." + r.tn(t // 2))
     argidx = p["given"].index(p["out"]) if p["out"] in p["given"] else 0
     inj = "(mkInj %s %s None %d %s %s %d)" % (
-        coq_str("Inject"), coq_list(["(%s, %d)" % (coq_str("a%d" % j), t) for j, t in enumerate(p["given"])]),
+        coq_str("Inject"), coq_list(["(%s, %d)" % (coq_str(nm), t) for nm, t in zip(r.inj_param_names(), p["given"])]),
         p["out"], coq_bool(p["cleanup"]), coq_bool(p["err"]), argidx)
     vals = []
     for s in spec.all_sets(tree):
@@ -132,14 +146,14 @@ def case_term(i, p, r, o):
             if r.types[k]["kind"] == "iface":
                 pieces = '[PPkg 1; PText %s]' % coq_str('NewImpl%d("val%d")' % (k, v["id"]))
             else:
-                pieces = '[%sPPkg 1; PText %s]' % ('PText "&"%string; ' if t % 2 else "", coq_str('T%d{ID: "val%d"}' % (k, v["id"])))
+                pieces = '[%sPPkg 1; PText %s]' % ('PText "&"%string; ' if t % 2 else "", coq_str('%s{ID: "val%d"}' % (r.tn(k), v["id"])))
             vals.append("(mkVI %d %d %s)" % (v["id"], t, pieces))
     if o["generated"] and "readback" in o:
         lines, imports = observed_lines(o["readback"])
         obs = "(GOOk %s %s)" % (coq_list([coq_str(x) for x in lines]), coq_list([coq_str(x) for x in imports]))
         kind = ("ok", len(lines))
     else:
-        ds = synth.parse_errors(tree, o["errors"], parse_t=ptid, strip=strip_msg)
+        ds = synth.parse_errors(tree, o["errors"], parse_t=ptid_for(r), strip=strip_msg)
         stage = "StSet"
         if not ds:
             ds = [("DUnparsed", 0)]
